@@ -37,9 +37,15 @@
       `a = −4` never moves: width > 4 ≥ tol. (`creeping_zero_inside`: the first 200 iterations by
       kernel computation over ℚ. In binary64 `b` underflows to 0 after 1066 iterations and the loop
       stops — observed on the real class.)
-  Still open: brackets *touching* 0 from one side (`start = 0`: the first step of a noisy run).
+    * `within_nonneg_bracket`, `terminates_nonneg_bracket`, `tape_converges_nonneg_bracket`,
+      `solver_search_bound0`, `terminates_nonneg` – the same for `0 ≤ start` (brackets *touching* 0, e.g. the
+      first step of a noisy run): `1 ≤ 2ε`, `0 < θ < tol`, `stop ≤ θ·(2ε)^m`, `stop − start < tol·2^n` ⇒ at most
+      `n·(2m+5)` iterations (`Brent.nonneg_within`: once `max(c,d) ≤ θ < tol`, an unconverged bracket has
+      `a > b`, `b` cannot decrease, and three more accepted steps make `c = d`, which forces a bisection).
+  Still open: termination (without a uniform bound) for ε < 1/2; the vacuous case ε = 1/2.
 -/
 import EmuVerif.Props.C19
+import EmuVerif.Proofs.BrentTerm0
 import EmuVerif.Proofs.BrentCreep
 import EmuVerif.Proofs.BrentOvershoot
 import Mathlib.Algebra.Order.Archimedean.Basic
@@ -113,7 +119,79 @@ theorem terminates_away_from_zero [Archimedean α] : TerminatesAwayFromZero α :
   · have := (div_lt_iff₀ htol).mp hn
     linarith
 
+/-! ### Brackets touching 0 (`0 ≤ start`): the tolerance replaces the lower end -/
+
+/-- The iteration bound for brackets in `[0, H]`: at most `2m + 4` interpolated steps between two
+bisections when `H ≤ θ (2ε)^m`, `θ < tol`. -/
+def iterBound0 (m n : Nat) : Nat := n * (2 * m + 5)
+
+/-- **Every ordinate sequence, `0 ≤ start`**: with `1 ≤ 2ε`, `0 < θ < tol`, `stop ≤ θ·(2ε)^m`,
+`stop − start < tol·2^n` the loop has converged after at most `iterBound0 m n` iterations. -/
+theorem within_nonneg_bracket {start stop fS fE eps tol θ : α} {s0 : St α} (m n : Nat)
+    (h : init start stop fS fE eps = some s0) (hpos : 0 ≤ start) (heps : 1 ≤ 2 * eps)
+    (hθ0 : 0 < θ) (hθ : θ < tol)
+    (hm : stop ≤ θ * (2 * eps) ^ m) (hn : stop - start < tol * 2 ^ n) :
+    Within tol (iterBound0 m n) s0 := by
+  have hp := nnB_init h hpos
+  obtain ⟨_, _, _, hlo, hhi, _⟩ := init_some h
+  apply nonneg_within tol heps hθ0 hθ m hm n s0 hp
+  rw [← width_eq, hlo, hhi]
+  exact hn
+
+/-- `find_root_brents` terminates on every bracket with `0 ≤ start`, for every `f`. -/
+theorem terminates_nonneg_bracket (f : α → α) {start stop eps tol θ : α} {s0 : St α} (m n : Nat)
+    (h : init start stop (f start) (f stop) eps = some s0) (hpos : 0 ≤ start) (heps : 1 ≤ 2 * eps)
+    (hθ0 : 0 < θ) (hθ : θ < tol)
+    (hm : stop ≤ θ * (2 * eps) ^ m) (hn : stop - start < tol * 2 ^ n) :
+    ∃ r, findRoot f tol (iterBound0 m n + 1) s0 [] = some r :=
+  findRoot_of_within f tol _ s0 [] (within_nonneg_bracket m n h hpos heps hθ0 hθ hm hn)
+
+/-- … and so does the one-at-a-time protocol on every tape of at least `iterBound0 m n` ordinates. -/
+theorem tape_converges_nonneg_bracket {start stop fS fE eps tol θ : α} {s0 : St α} (m n : Nat)
+    (h : init start stop fS fE eps = some s0) (hpos : 0 ≤ start) (heps : 1 ≤ 2 * eps)
+    (hθ0 : 0 < θ) (hθ : θ < tol)
+    (hm : stop ≤ θ * (2 * eps) ^ m) (hn : stop - start < tol * 2 ^ n)
+    (ys : List α) (hlen : iterBound0 m n ≤ ys.length) :
+    (runTape tol ys s0 []).2.2 = true :=
+  runTape_of_within tol _ ys s0 [] (within_nonneg_bracket m n h hpos heps hθ0 hθ hm hn) hlen
+
+/-- The solver's parameters (ε = 1, tolerance 1, θ = 1/2) on a step `[tk, tk1]` with `0 ≤ tk` — the
+first step of a run included: `2·tk1 ≤ 2^m`, `tk1 − tk < 2^n` ⇒ at most `n(2m+5)` abscissae. -/
+theorem solver_search_bound0 {tk tk1 fS fE : α} {s0 : St α} (m n : Nat)
+    (h : init tk tk1 fS fE 1 = some s0) (hpos : 0 ≤ tk)
+    (hm : 2 * tk1 ≤ 2 ^ m) (hn : tk1 - tk < 2 ^ n) :
+    Within 1 (iterBound0 m n) s0 := by
+  apply within_nonneg_bracket (θ := 1 / 2) m n h hpos (by norm_num) (by norm_num) (by norm_num)
+  · rw [show (2 : α) * 1 = 2 by norm_num]; linarith
+  · rw [one_mul]; exact hn
+
+/-- The termination clause of C19 restricted to brackets with `0 ≤ start` and `ε > 1/2`. -/
+def TerminatesNonneg (α : Type) [Field α] [LinearOrder α] [IsStrictOrderedRing α] : Prop :=
+  ∀ (f : α → α) (start stop eps tol : α) (s0 : St α), 0 < tol → 1 < 2 * eps → 0 ≤ start →
+    init start stop (f start) (f stop) eps = some s0 →
+    ∃ fuel r, findRoot f tol fuel s0 [] = some r
+
+/-- **It holds in every Archimedean ordered field**: `TerminatesAlways` fails only through
+brackets with negative abscissae (`terminatesAlways_false`) or `ε ≤ 1/2`. -/
+theorem terminates_nonneg [Archimedean α] : TerminatesNonneg α := by
+  intro f start stop eps tol s0 htol heps hpos h
+  obtain ⟨m, hm⟩ := pow_unbounded_of_one_lt (stop / (tol / 2)) heps
+  obtain ⟨n, hn⟩ := pow_unbounded_of_one_lt ((stop - start) / tol) (by norm_num : (1 : α) < 2)
+  refine ⟨iterBound0 m n + 1, ?_⟩
+  apply terminates_nonneg_bracket (θ := tol / 2) f m n h hpos (le_of_lt heps) (by positivity) (by linarith)
+  · have := (div_lt_iff₀ (by positivity : (0 : α) < tol / 2)).mp hm
+    linarith
+  · have := (div_lt_iff₀ htol).mp hn
+    linarith
+
 /-! ### Non-vacuity (ℚ, the solver's ε = 1, tol = 1, bracket [10, 1000]) -/
+
+/-- the first step of a 10 ns grid, [0, 10]: m = 5 (20 ≤ 32), n = 4 (10 < 16): 60 iterations -/
+example : ∀ s0, init (0 : ℚ) 10 (1 / 2) (-1 / 3) 1 = some s0 → Within 1 (iterBound0 5 4) s0 := fun _ h =>
+  solver_search_bound0 5 4 h (by norm_num) (by norm_num) (by norm_num)
+
+example : (init (0 : ℚ) 10 (1 / 2) (-1 / 3) 1).isSome = true := by decide +kernel
+example : iterBound0 5 4 = 60 := by decide
 
 example : (init (10 : ℚ) 1000 (1 / 2) (-1 / 3) 1).isSome = true := by decide +kernel
 
